@@ -344,3 +344,60 @@ Definition sp_memory_percent (c : option Z) (value : Z) (k : kernel) : option Z 
 (* the same kernel state without a readable /proc/zoneinfo *)
 Definition no_zone (k : kernel) : kernel :=
   {| k_mem := k_mem k; k_zone := None; k_vm := k_vm k; k_pagesize := k_pagesize k; k_sysinfo := k_sysinfo k |}.
+
+(* ---------------------------------------------------------------- /proc/zoneinfo of big machines
+   zoneinfo_show_print(): every zone block carries a "pagesets" section with one 7-line entry per
+   possible CPU, so the file grows with nodes x zones x CPUs (12.8 KB for 16 CPUs x 5 zones, beyond
+   32 KiB from ~48 CPUs, beyond 64 KiB for 2 nodes x 128 CPUs).  [big_zoneinfo] builds such a file
+   (line shapes as validated against the running 6.18 kernel by the live cases) for ANY number of
+   nodes, zones per node and CPUs; the low watermark of zone number i is [lowf i].  [fill] > 0 puts a
+   filler line of that many bytes in front (used to move a chosen byte offset -- e.g. the 32768th --
+   into the digits of a "low" line or exactly onto a line end). *)
+Fixpoint dec_digits (fuel : nat) (n : Z) (acc : bytes) : bytes :=
+  match fuel with
+  | O => acc
+  | S f => let d := 48 + n mod 10 in
+           if n <? 10 then d :: acc else dec_digits f (n / 10) (d :: acc)
+  end.
+Definition dec_of (n : Z) : bytes := dec_digits 100 (Z.abs n) [].
+
+Definition zo (s : string) (n : Z) : zline := ZOther (bs s ++ dec_of n).
+Definition cpu_block (c : nat) : list zline :=
+  [ zo "    cpu: " (Z.of_nat c); zo "              count:    " (Z.of_nat c * 7);
+    zo "              high:     " 0; zo "              batch:    " 1;
+    zo "              high_min: " 4; zo "              high_max: " 30;
+    zo "  vm stats threshold: " 10 ].
+Definition zone_names : list string := ["DMA"; "DMA32"; "Normal"; "Movable"; "Device"]%string.
+Definition zone_block (node : nat) (zname : string) (cpus : nat) (low : Z) : list zline :=
+  [ ZOther (bs "Node " ++ dec_of (Z.of_nat node) ++ bs ", zone " ++ bs zname);
+    zo "  pages free     " (low * 3);
+    zo "        boost    " 0;
+    zo "        min      " (low / 2);
+    ZLow (bs "        ") (bs "      ") (dec_of low) [];
+    zo "        high     " (low + low / 2);
+    zo "        promo    " (low * 2);
+    zo "        spanned  " (low * 100);
+    ZOther (bs "        protection: (0, 3026, 64461, 64461, 64461)");
+    zo "      nr_free_pages " (low * 3);
+    zo "      nr_zone_inactive_file " 0;
+    zo "      numa_local   " 0;
+    ZOther (bs "  pagesets") ]
+  ++ concat (map cpu_block (seq 0 cpus))
+  ++ [ zo "  node_unreclaimable:  " 0; zo "  start_pfn:           " (Z.of_nat node * 1048576 + 1) ].
+Fixpoint zone_blocks (node : nat) (names : list string) (cpus : nat) (lowf : nat -> Z) (i : nat) : list zline :=
+  match names with
+  | [] => []
+  | zn :: r => zone_block node zn cpus (lowf i) ++ zone_blocks node r cpus lowf (S i)
+  end.
+Fixpoint node_blocks (nodes : nat) (node : nat) (zones cpus : nat) (lowf : nat -> Z) : list zline :=
+  match nodes with
+  | O => []
+  | S n => zone_blocks node (firstn zones zone_names) cpus lowf (node * zones)
+           ++ node_blocks n (S node) zones cpus lowf
+  end.
+Definition filler (n : nat) : list zline :=
+  match n with O => [] | S m => [ZOther (repeat 35 m)] end.     (* '#' x (n-1) + newline = n bytes *)
+Definition big_zoneinfo (nodes zones cpus : nat) (lowf : nat -> Z) (fill : nat) : list zline :=
+  filler fill ++ node_blocks nodes 0 zones cpus lowf.
+(* watermark of zone i for a seed: 4-6 digit numbers *)
+Definition seed_low (seed : Z) (i : nat) : Z := 1000 + (seed * 7919 + Z.of_nat i * 104729) mod 900000.
